@@ -12,7 +12,7 @@ def items(tier):
     maxL = 3 if tier == "quick" else 4
     for p, strat, tags in corpus.entries(tier):
         a = alpha_for(p)
-        for L in ([2, maxL] if tier == "quick" else range(0, maxL + 1)):
+        for L in ([] if corpus.windows_only(tags, tier) else [2, maxL] if tier == "quick" else corpus.lengths(tags, tier, maxL)):
             out.append(mk("C10", p, "FindIndex", L, a, mode=1, strategy=strat))
         out.append(mk("C10", p, "Match", 2, a, mode=1, strategy=strat))
         out.append(mk("C10", p, "FindAllIndex", 2, a, mode=1, strategy=strat))
